@@ -58,8 +58,9 @@ def beh_abstract(case, beh, ids):
 def verdicts(case, res):
     """Model targets -> observed verdict."""
     v = {}
+    tmap = gl.script_test_map(case)
     for k, name in case['names'].items():
-        v[k] = res.get(gl.test_name_for(name), 'missing')
+        v[k] = res.get(tmap.get(os.path.basename(name), gl.test_name_for(name)), 'missing')
     if not case['no_stdout']:
         v['STDOUT'] = res.get('test_stdout', 'missing')
     if not case['no_stderr']:
@@ -73,10 +74,10 @@ def one_session(args):
     seed, tid, root, shape, nperturb = args
     rnd = random.Random(seed)
     wd = os.path.join(root, 'w%d' % tid)
-    case = gl.make_case(rnd, wd, shape)
+    case = gl.make_case(rnd, wd, shape, tmpdir_tokens_with_one_iteration=(nperturb == 0))
     ids = {}
     events = []
-    detail = {'tid': tid, 'shape': shape, 'flags': case['flags'], 'refs': case['refs'], 'pre': case['pre'], 'script': case['script'],
+    detail = {'tid': tid, 'shape': shape, 'names': case['names'], 'flags': case['flags'], 'refs': case['refs'], 'pre': case['pre'], 'script': case['script'],
               'behaviour': case['beh'], 'wd': wd}
     if os.path.exists(os.path.join(wd, 'test_job.py')):
         case['stale_script_sha'] = gl.sha(os.path.join(wd, 'test_job.py'))
@@ -122,7 +123,8 @@ def one_session(args):
             case['assumed'] = {k: beh_now['files'][k] for k in case['assumed']}
         fsx, _ = abstract_fs(case, ids)
         v = verdicts(case, res)
-        mapped = {gl.test_name_for(n) for n in case['names'].values()} | {'test_stdout', 'test_stderr', 'test_exit_code'}
+        tmap = gl.script_test_map(case)
+        mapped = {tmap.get(os.path.basename(n), gl.test_name_for(n)) for n in case['names'].values()} | {'test_stdout', 'test_stderr', 'test_exit_code'}
         other = res.get('test_no_exception', 'missing') == 'pass' and all(v_ == 'pass' for t_, v_ in res.items() if t_ not in mapped)
         if not other:
             detail['unexpected_tests'] = {t_: v_ for t_, v_ in res.items() if t_ not in mapped}
@@ -135,13 +137,16 @@ def one_session(args):
     # perturbations: one change at a time, each followed by a run of the generated test
     targets = sorted(case['names']) + ([] if case['no_stdout'] else ['STDOUT']) + ([] if case['no_stderr'] else ['STDERR']) + ['exit']
     cwd_files = [k for k in sorted(case['names']) if not case['names'][k].startswith('$TMPDIR/')]
-    plan = ['remove', 'stream', 'edit', 'exit', 'stream']
+    plan = ['remove', 'stream', 'edit', 'exit', 'tokenline', 'stream', 'tokenline']
     for step in range(nperturb):
-        kind_ = plan[(tid + step) % len(plan)]
+        kind_ = 'tokenline' if step == 1 else plan[(tid + step) % len(plan)]
         if kind_ in ('remove', 'edit') and cwd_files:
             t = rnd.choice(cwd_files if kind_ == 'remove' else sorted(case['names']))
         elif kind_ == 'exit':
             t = 'exit'
+        elif kind_ == 'tokenline':
+            cands = [x for x in targets if x in ('STDOUT', 'STDERR')] + [k for k in sorted(case['names']) if case['beh']['files'][case['names'][k]]['kind'] == 'text']
+            t = cands[(tid // 2 + step) % len(cands)] if cands else 'exit'
         else:
             streams = [x for x in targets if x in ('STDOUT', 'STDERR')]
             t = rnd.choice(streams) if streams else rnd.choice(targets)
@@ -150,8 +155,10 @@ def one_session(args):
         if t in case['names']:
             name = case['names'][t]
             spec = beh['files'][name]
-            how = 'remove' if kind_ == 'remove' else 'edit'
-            if how == 'remove':
+            how = 'remove' if kind_ == 'remove' else ('tokenline' if kind_ == 'tokenline' and spec['kind'] == 'text' else 'edit')
+            if how == 'tokenline':
+                spec['text'], what = gl.edit_token_line(spec['text'], rnd, case['wd'])
+            elif how == 'remove':
                 beh['files'][name] = None
                 what = 'file no longer produced'
             elif spec['kind'] == 'text':
@@ -166,6 +173,12 @@ def one_session(args):
                     new = (old + 7) % 256
                 spec['bytes'][i] = new
                 what = 'byte %d changed %d -> %d' % (i, old, new)
+        elif t == 'STDOUT' and kind_ == 'tokenline':
+            beh['stdout'], what = gl.edit_token_line(beh['stdout'], rnd, case['wd'])
+            what = 'stdout: ' + what
+        elif t == 'STDERR' and kind_ == 'tokenline':
+            beh['stderr'], what = gl.edit_token_line(beh['stderr'], rnd, case['wd'])
+            what = 'stderr: ' + what
         elif t == 'STDOUT':
             beh['stdout'] = gl.edit_first_line(beh['stdout'], rnd)
             what = 'stdout edited'
@@ -186,7 +199,7 @@ def one_session(args):
     return events, detail
 
 
-SHAPES = {'': [], 'o1': ['o1'], 'o2': ['o2'], 'o1o2': ['o1', 'o2'], 'o1o3': ['o1', 'o3']}
+SHAPES = {'': [], 'o1': ['o1'], 'o2': ['o2'], 'o1o2': ['o1', 'o2'], 'o1o3': ['o1', 'o3'], 'o1o4': ['o1', 'o4']}
 
 
 def run_sessions(chk, seed, nsessions, nperturb, clauses, kind):
@@ -194,7 +207,7 @@ def run_sessions(chk, seed, nsessions, nperturb, clauses, kind):
     rnd = random.Random(seed)
     tasks = []
     for tid in range(nsessions):
-        shape = rnd.choice(['', 'o1', 'o1', 'o2', 'o1o2', 'o1o2', 'o1o3'])
+        shape = rnd.choice(['', 'o1', 'o1', 'o2', 'o1o2', 'o1o2', 'o1o3', 'o1o4'])
         tasks.append((rnd.randrange(10**9), tid, root, SHAPES[shape], nperturb))
     with ThreadPoolExecutor(14) as ex:
         results = list(ex.map(one_session, tasks))
@@ -241,6 +254,19 @@ def run_sessions(chk, seed, nsessions, nperturb, clauses, kind):
                 if clause == 'ScriptPasses' and e['ev'] == 'RunTest':
                     failing = sorted(t for t, v in e['verdict'].items() if v != 'pass')
                     sig['failing'] = ','.join(failing)
+                    sig['iterations'] = det['flags'][det['flags'].index('-n') + 1]
+
+                    def text_of_target(t):
+                        b = det['behaviour']
+                        if t == 'STDOUT':
+                            return b['stdout']
+                        if t == 'STDERR':
+                            return b['stderr']
+                        for n_, sp in b['files'].items():
+                            if sp and sp['kind'] == 'text' and gl.test_name_for(n_) and n_ == det.get('names', {}).get(t):
+                                return sp['text']
+                        return ''
+                    sig['failing_mention_tmpdir'] = bool(failing) and all('{TMPDIR}' in text_of_target(t) for t in failing)
                     sig['verdicts'] = ','.join(sorted(set(e['verdict'][t] for t in failing)))
                     if failing == ['o2']:
                         name = [n for n, sp in det['behaviour']['files'].items() if sp and sp['kind'] == 'binary']
